@@ -82,6 +82,14 @@ for dt in (np.float32, np.float64):
                 arr = np.array([edge] + [fill] * 60, dtype=dt)
                 R.check("compress() round trip within tolerance; non-finite kept or rejected", f"compress {dt.__name__} at the fixed-point range edge",
                         {"dtype": dt.__name__, "array": f"[{edge}] + [{fill}] * 60", "tolerance": tol}, lambda arr=arr, tol=tol: check(arr, tol))
+# 64-bit integers outside the 32-bit range: exact or rejected, never wrapped
+WIDE = {np.int64: [-2 ** 40, -2 ** 31 - 1, -2 ** 31, -1, 0, 2 ** 31 - 1, 2 ** 31, 2 ** 32, 2 ** 40], np.uint64: [0, 1, 2 ** 31, 2 ** 32 - 1, 2 ** 32, 2 ** 40]}
+for dt, vals in WIDE.items():
+    for n in (1, 2, 3):
+        for combo in itertools.product(vals, repeat=n):
+            arr = np.array(combo, dtype=dt)
+            R.check("compress() round trip exact for integers", f"compress {dt.__name__}",
+                    {"dtype": dt.__name__, "array": list(map(int, combo))}, lambda arr=arr: check(arr))
 for dt, vals in INTS.items():
     for n in (1, 2, 3):
         for combo in itertools.product(vals, repeat=n):
